@@ -11,7 +11,7 @@ use std::collections::VecDeque;
 use std::io::Write;
 
 #[derive(Clone, Debug)]
-pub struct Pat { mode: u8, m: usize, lo: usize, c0: usize, k: usize, freeze: bool, rt: usize, unsplit: bool, vary: bool }
+pub struct Pat { mode: u8, m: usize, lo: usize, c0: usize, k: usize, freeze: bool, rt: usize, unsplit: bool, vary: bool, fill: u8 }
 enum Part { M(BytesMut), B(Bytes) }
 fn count_allocs() -> usize { ledger::take_events().iter().filter(|e| matches!(e, Ev::Alloc(..) | Ev::Realloc(..))).count() }
 
@@ -28,7 +28,15 @@ pub fn run_pattern(p: &Pat, n: usize, factor: usize, rng: &mut Rng) -> String {
         bmax = bmax.max(buf.len() + m);
         // is the handle alone on its buffer at refill time?
         if !q.is_empty() { alone = false; }
-        tr(|| { buf.reserve(m); buf.put_slice(&payload[..m]); });
+        // refill: every way of appending m bytes goes through reserve (the policy of C18)
+        tr(|| match p.fill {
+            0 => { buf.reserve(m); buf.put_slice(&payload[..m]); }
+            1 => { let l = buf.len(); buf.resize(l + m, 0); }
+            2 => { let l = buf.len(); buf.resize(l + m, 0x5a); }
+            3 => { buf.put_bytes(0x5a, m); }
+            4 => { buf.extend_from_slice(&payload[..m]); }
+            _ => { buf.extend(payload[..m].iter().copied()); }
+        });
         capmax = capmax.max(buf.capacity());
         // consume
         let c = buf.len().saturating_sub(p.lo.min(buf.len()));
@@ -58,20 +66,21 @@ pub fn run_pattern(p: &Pat, n: usize, factor: usize, rng: &mut Rng) -> String {
     let (bufs, ctrl) = ledger::live_summary();
     let leak = !bufs.is_empty() || ctrl != 0;
     ledger::reset(false);
-    format!("R mode={} m={} lo={} c0={} k={} freeze={} rt={} unsplit={} vary={} n={} f={} B={} peakN={} peakAll={} allocsN={} allocsAll={} capmax={} maxlive={} alone={} leak={}",
-            p.mode, p.m, p.lo, p.c0, p.k, p.freeze as u8, p.rt, p.unsplit as u8, p.vary as u8, n, factor, bmax, peak_n, peak_all, allocs_n, allocs, capmax, maxlive, alone as u8, leak as u8)
+    format!("R mode={} fill={} m={} lo={} c0={} k={} freeze={} rt={} unsplit={} vary={} n={} f={} B={} peakN={} peakAll={} allocsN={} allocsAll={} capmax={} maxlive={} alone={} leak={}",
+            p.mode, p.fill, p.m, p.lo, p.c0, p.k, p.freeze as u8, p.rt, p.unsplit as u8, p.vary as u8, n, factor, bmax, peak_n, peak_all, allocs_n, allocs, capmax, maxlive, alone as u8, leak as u8)
 }
 pub fn gen_pat(rng: &mut Rng) -> Pat {
     let m = *rng.pick(&[1usize, 7, 16, 64, 100, 1000, 1024, 4096, 5000]);
     let lo = match rng.below(4) { 0 => 0, 1 => 1, 2 => m / 3, _ => m.saturating_sub(1) };
     Pat { mode: rng.below(4) as u8, m, lo, c0: *rng.pick(&[0usize, 1, 8, 64, 1024, 4096, 8192, 65536]), k: *rng.pick(&[0usize, 0, 0, 1, 2, 5]),
-          freeze: rng.chance(1, 3), rt: *rng.pick(&[0usize, 0, 3, 10]), unsplit: rng.chance(1, 4), vary: rng.chance(1, 3) }
+          freeze: rng.chance(1, 3), rt: *rng.pick(&[0usize, 0, 3, 10]), unsplit: rng.chance(1, 4), vary: rng.chance(1, 3), fill: *rng.pick(&[0u8, 0, 1, 2, 3, 4, 5]) }
 }
 pub fn recycle(out: &mut dyn Write, seed: u64, npat: usize, n: usize, factor: usize) {
     let mut rng = Rng::new(seed ^ 0x7ec1c1e);
     // the fixed periodic patterns first, then seeded random ones
     let mut pats = vec![];
-    for mode in 0..4u8 { for (m, lo, c0) in [(64usize, 0usize, 0usize), (1024, 0, 1024), (1024, 100, 4096), (4096, 0, 65536), (1000, 999, 8)] { pats.push(Pat { mode, m, lo, c0, k: 0, freeze: false, rt: 0, unsplit: false, vary: false }); } }
+    for mode in 0..4u8 { for (m, lo, c0) in [(64usize, 0usize, 0usize), (1024, 0, 1024), (1024, 100, 4096), (4096, 0, 65536), (1000, 999, 8)] { pats.push(Pat { mode, m, lo, c0, k: 0, freeze: false, rt: 0, unsplit: false, vary: false, fill: 0 }); } }
+    for fill in 1..6u8 { for mode in [0u8, 2] { pats.push(Pat { mode, m: 1024, lo: 0, c0: 1024, k: 0, freeze: false, rt: 0, unsplit: false, vary: false, fill }); pats.push(Pat { mode, m: 100, lo: 7, c0: 64, k: 0, freeze: false, rt: 0, unsplit: false, vary: false, fill }); } }
     for _ in 0..npat { pats.push(gen_pat(&mut rng)); }
     for p in &pats {
         crate::progress(&format!("{:?}", p));
@@ -80,7 +89,7 @@ pub fn recycle(out: &mut dyn Write, seed: u64, npat: usize, n: usize, factor: us
     }
 }
 pub fn recycle_one(out: &mut dyn Write, n: usize, factor: usize) {
-    let p = Pat { mode: 1, m: 16, lo: 0, c0: 8, k: 5, freeze: true, rt: 3, unsplit: false, vary: false };
+    let p = Pat { mode: 1, m: 16, lo: 0, c0: 8, k: 5, freeze: true, rt: 3, unsplit: false, vary: false, fill: 0 };
     let mut rng = Rng::new(1);
     let t = std::time::Instant::now();
     let line = run_pattern(&p, n, factor, &mut rng);
